@@ -57,3 +57,38 @@ package mem
 //@   ensures [callback-told-iff-something-collected] called("AlertStoreCallback).PostGC") == (len(ret("Alerts).gcAlerts")) > 0)
 //@   loop 1 invariant rangeindex < len(deleted) && fresh(ff) && len(ff) == len(deleted) && count("AlertStoreCallback).PostDelete") == rangeindex + 1 && !called("AlertStoreCallback).PostGC")
 //@   loop 1 invariant forall i int :: 0 <= i && i <= rangeindex ==> ff[i] == fpL(deleted[i].Labels)
+
+// ---- C03 / C14 / C13: subscribing. The snapshot of the stored alerts and the registration of the new listener happen
+// under one hold of the provider's lock (so no alert stored in between is missed or seen twice); the listener is filed
+// under a key no listener had, the other listeners stay as they were, and the iterator handed out reads the very
+// channel that was registered.
+//@ func (*Alerts).SlurpAndSubscribe
+//@   props C03 C14 C13
+//@   requires a != nil && a.listeners != nil && a.alerts != nil
+//@   assumes !(a.next in a.listeners)
+//@   ensures [monitor-lock-released] count("Mutex).Lock") == 1 && count("Mutex).Unlock") == 1
+//@   at call store.Alerts).List assert [snapshot-under-the-lock] arg0 == a.alerts && count("Mutex).Lock") == 1 && count("Mutex).Unlock") == 0
+//@   at call NewAlertIterator assert [iterator-reads-the-registered-channel-and-registration-is-under-the-same-lock] count("Mutex).Unlock") == 0 && (old(a.next) in a.listeners)
+//@             && arg0 == a.listeners[old(a.next)].alerts && arg1 == a.listeners[old(a.next)].done && cap(arg0) == alertChannelLength
+//@   ensures [the-snapshot-is-returned] result0 == ret("store.Alerts).List") && result1 == ret("NewAlertIterator")
+//@   ensures [registered-under-a-new-key] a.next == old(a.next) + 1 && dom(a.listeners) == setadd(old(dom(a.listeners)), old(a.next)) && a.listeners[old(a.next)].name == name
+//@   ensures [other-listeners-untouched] forall k int :: k != old(a.next) ==> a.listeners[k] == old(a.listeners[k])
+//@   noeffect store.Alerts).List NewAlertIterator
+//@   assigns a.next, a.listeners[*]
+
+//@ func (*Alerts).Subscribe
+//@   props C03 C14 C13
+//@   requires a != nil && a.listeners != nil && a.alerts != nil
+//@   assumes !(a.next in a.listeners)
+//@   after call store.Alerts).List assume forall i int :: 0 <= i && i < len(res0) ==> res0[i] != nil
+//@   ensures [monitor-lock-released] count("Mutex).Lock") == 1 && count("Mutex).Unlock") == 1
+//@   at call store.Alerts).List assert [snapshot-under-the-lock] arg0 == a.alerts && count("Mutex).Lock") == 1 && count("Mutex).Unlock") == 0
+//@   at call chan.send assert [every-stored-alert-is-queued-for-the-new-subscriber] arg0 != nil && arg0.Data == ret("store.Alerts).List")[rangeindex1 + 1] && cap(arg1) >= len(ret("store.Alerts).List"))
+//@   at call NewAlertIterator assert [iterator-reads-the-registered-channel-after-the-whole-snapshot-was-queued] count("Mutex).Unlock") == 0 && (old(a.next) in a.listeners)
+//@             && arg0 == a.listeners[old(a.next)].alerts && arg1 == a.listeners[old(a.next)].done && count("chan.send") == len(ret("store.Alerts).List"))
+//@   ensures [registered-under-a-new-key] a.next == old(a.next) + 1 && dom(a.listeners) == setadd(old(dom(a.listeners)), old(a.next))
+//@   ensures [other-listeners-untouched] forall k int :: k != old(a.next) ==> a.listeners[k] == old(a.listeners[k])
+//@   loop 1 invariant rangeindex < len(alerts) && alerts == ret("store.Alerts).List") && count("chan.send") == rangeindex + 1 && a.next == old(a.next) && a.listeners == old(a.listeners) && dom(a.listeners) == old(dom(a.listeners))
+//@   loop 1 invariant cap(ch) >= len(alerts) && count("Mutex).Unlock") == 0 && (forall k int :: a.listeners[k] == old(a.listeners[k]))
+//@   noeffect store.Alerts).List NewAlertIterator
+//@   assigns a.next, a.listeners[*]
